@@ -127,6 +127,18 @@ def install_opacities(cfg):
         CIACache().add_cia(MemCIA(p, *cias[p]))
 
 
+def readd_opacities(cfg, mode):
+    """After OpacityCache().set_interpolation(mode) (which clears the cache):
+    hand the in-memory tables over again, built with that mode, through the
+    public add_opacity (a no-op for molecules the cache still holds)."""
+    from taurex.cache import OpacityCache
+    mols = [m['name'] for m in cfg['molecules'] if not m.get('inactive')]
+    ops, _ = opac_tables(cfg['opac'], mols, [])
+    for m in mols:
+        OpacityCache().add_opacity(MemOpacity(m, *ops[m],
+                                              interpolation_mode=mode))
+
+
 def make_contribution(name, cfg):
     from taurex import contributions as C
     if name == 'Absorption':
